@@ -74,7 +74,7 @@ static long n_fblocked = 0, n_fwoken = 0, n_created = 0, ev_count[E_NCLS];
 static std::map<std::string, long> stats; static std::string cls_flags;
 static struct { const void* a; int t; } recent[16]; static unsigned recent_i = 0;
 static int solo = -1; static long solo_limit = 0, solo_steps = 0; static bool solo_broken = false;
-static void (*h_deadlock)(const char*) = nullptr; static void (*h_fixpoint)(const char*) = nullptr;
+static void (*h_deadlock)(const char*) = nullptr; static void (*h_fixpoint)(const char*) = nullptr; static void (*h_budget)(const char*) = nullptr;
 static uint64_t vtime = 1000000; static unsigned long long vclock = 1000000000ull;
 
 struct TraceE { int t, kind; uintptr_t pc; const void* a; uint64_t we; };
@@ -136,6 +136,9 @@ extern "C" void vs_inconclusive(const char* why, const char* fmt, ...) {
 }
 extern "C" void vs_on_deadlock(void (*h)(const char*)) { h_deadlock = h; }
 extern "C" void vs_on_fixpoint(void (*h)(const char*)) { h_fixpoint = h; }
+// called when the step budget is exhausted, before the run is closed as inconclusive: a harness that knows an exact progress obligation (e.g. "resume() was
+// called a million decision points ago and the task has not continued") may report a violation from here
+extern "C" void vs_on_budget(void (*h)(const char*)) { h_budget = h; }
 extern "C" void vs_stat_add(const char* k, long v) { stats[k] += v; }
 extern "C" void vs_stat_max(const char* k, long v) { auto& r = stats[k]; if (v > r) r = v; }
 extern "C" void vs_stat_flag(const char* c) {
@@ -282,7 +285,7 @@ static void point_pc(const void* addr, int kind, uintptr_t pc) {
     steps++;
     if (trace_ring) trace_ring[trace_n++ % TRACE_SZ] = { me->id, kind, pc, addr, write_epoch };
     if (addr && !ro_overflow) { if (!ro_addrs) ro_addrs = new std::unordered_set<const void*>(); if (ro_addrs->size() <= 256) ro_addrs->insert(addr); else ro_overflow = true; }
-    if (steps > (uint64_t)step_budget) { if (read_only_livelock()) livelock(); active = false; finish("INCONCLUSIVE", "STEP-BUDGET", state_dump().c_str()); }
+    if (steps > (uint64_t)step_budget) { if (read_only_livelock()) livelock(); active = false; if (h_budget) h_budget(state_dump().c_str()); finish("INCONCLUSIVE", "STEP-BUDGET", state_dump().c_str()); }
     // event classes (directed stalls)
     if (me->wake_pts > 0) { me->wake_pts--; event(E_WAKE); }
     if (me->start_pts > 0) { me->start_pts--; event(E_START); }
